@@ -24,6 +24,7 @@ const (
 	audience = "svc"
 
 	hostJWKS  = "jwks.local"
+	hostMD    = "md.local"
 	hostIDP   = "idp.local"
 	hostIntro = "intro.local"
 
@@ -36,18 +37,22 @@ const (
 var types = []string{"jwt", "basic", "generic", "oauth2", "anon", "unauth"}
 
 var heimdallType = map[string]string{
+	// jwtmd: a jwt authenticator that finds its key set through a metadata endpoint whose URL is a template over the
+	// issuer named by the (not yet verified) token; used in a family of chains of its own, never together with "jwt"
+	"jwtmd": "jwt",
 	"jwt": "jwt", "basic": "basic_auth", "generic": "generic", "oauth2": "oauth2_introspection",
 	"anon": "anonymous", "unauth": "unauthorized",
 }
 
 // subject id each authenticator produces when it succeeds (pairwise distinct).
 var subjectOf = map[string]string{
+	"jwtmd": "jwt-user",
 	"jwt": "jwt-user", "basic": "alice", "generic": "generic-user", "oauth2": "oauth2-user", "anon": "anon-user",
 }
 
-var remoteOf = map[string]string{"jwt": hostJWKS, "generic": hostIDP, "oauth2": hostIntro}
+var remoteOf = map[string]string{"jwtmd": hostJWKS, "jwt": hostJWKS, "generic": hostIDP, "oauth2": hostIntro}
 
-func flaggable(t string) bool { return t == "jwt" || t == "basic" || t == "generic" || t == "oauth2" }
+func flaggable(t string) bool { return t == "jwtmd" || t == "jwt" || t == "basic" || t == "generic" || t == "oauth2" }
 
 func typeOfID(id string) string { return strings.TrimSuffix(id, "_fb") }
 
@@ -57,6 +62,13 @@ func catalogue() *config.MechanismPrototypes {
 			"jwks_endpoint": map[string]any{"url": "http://" + hostJWKS + "/keys"},
 			"assertions":    map[string]any{"issuers": []any{issuer}, "audience": []any{audience}},
 			"cache_ttl":     "0s",
+		},
+		"jwtmd": {
+			"metadata_endpoint": map[string]any{
+				"url": "http://" + hostMD + "/meta?iss={{ .TokenIssuer }}", "disable_issuer_identifier_verification": true,
+			},
+			"assertions":        map[string]any{"audience": []any{audience}},
+			"cache_ttl":         "0s",
 		},
 		"basic": {"user_id": "alice", "password": "secret"},
 		"generic": {
@@ -78,7 +90,7 @@ func catalogue() *config.MechanismPrototypes {
 
 	p := &config.MechanismPrototypes{}
 
-	for _, t := range types {
+	for _, t := range append([]string{"jwtmd"}, types...) {
 		switch {
 		case flaggable(t):
 			plain := config.MechanismConfig{}
@@ -131,6 +143,8 @@ var authValues = []authValue{
 	{"bearer-jwt-wrong-audience", "bearer", "jwt-wrong-audience"},
 	{"bearer-jwt-unknown-kid", "bearer", "jwt-unknown-kid"},
 	{"bearer-jwt-hs256-forged", "bearer", "jwt-hs256-forged"},
+	{"bearer-jwt-without-iss", "bearer", "jwt-without-iss"},
+	{"bearer-jwt-es384-under-the-kid-of-the-es256-key", "bearer", "jwt-alg-mismatch"},
 	{"bearer-jws-alg-none", "bearer", "jws-alg-none"},
 	{"bearer-three-garbage-segments", "bearer", "garbage-segments"},
 	{"bearer-opaque-active", "bearer", "opaque-active"},
@@ -217,6 +231,24 @@ func newWorld() *world {
 		"jwt-unknown-kid":    signJWT(keyA, "k9", claims(nil)),
 	}
 
+	// correctly signed, but without an issuer claim
+	noIss := claims(nil)
+	delete(noIss, "iss")
+	jwts["jwt-without-iss"] = signJWT(keyA, "k1", noIss)
+
+	// signed with another key and another (allowed) algorithm under the kid of the published ES256 key
+	keyC := hx.Key("EC", 384, 2).(*ecdsa.PrivateKey) //nolint:forcetypeassert
+
+	es384, err := jose.NewSigner(jose.SigningKey{Algorithm: jose.ES384, Key: jose.JSONWebKey{Key: keyC, KeyID: "k1"}},
+		(&jose.SignerOptions{}).WithType("JWT"))
+	if err != nil {
+		panic(err)
+	}
+
+	if jwts["jwt-alg-mismatch"], err = jwt.Signed(es384).Claims(claims(nil)).Serialize(); err != nil {
+		panic(err)
+	}
+
 	// a well-formed JWS with a symmetric algorithm, MAC'ed with the published key set document ("key confusion"): in JWT
 	// format, present, and invalid
 	hs, err := jose.NewSigner(jose.SigningKey{Algorithm: jose.HS256, Key: jose.JSONWebKey{Key: raw, KeyID: "k1"}},
@@ -281,6 +313,15 @@ func newWorld() *world {
 		}
 
 		return env.Reply(nil, http.StatusOK, "application/json", w.jwks), nil
+	}
+
+	w.tr.Handlers[hostMD] = func(r *env.Recorded) (*http.Response, error) {
+		if u, perr := url.Parse(r.URL); perr != nil || u.Query().Get("iss") != issuer {
+			return env.Reply(nil, http.StatusNotFound, "text/plain", "unknown issuer"), nil
+		}
+
+		return env.Reply(nil, http.StatusOK, "application/json",
+			`{"issuer":"`+issuer+`","jwks_uri":"http://`+hostJWKS+`/keys"}`), nil
 	}
 
 	w.tr.Handlers[hostIDP] = func(r *env.Recorded) (*http.Response, error) {
